@@ -628,6 +628,8 @@ pub fn f_push(seed: u64, exhaustive_scripts: bool) -> Plan {
         // an answer that is slow but still inside a longer-than-default lease
         Behaviour::Delay(if dl > 11 { rng.range(10_300, (dl as u64) * 1000 - 400) } else { rng.range(1_000, 9_000) }, 200),
         Behaviour::Never,
+        // an answer that arrives at the very instant the lease of the POSTed delivery runs out
+        Behaviour::Delay(((dl as u64) * 1000).saturating_add_signed(*rng.pick(&[0i64, 0, -1, 1])), *rng.pick(&[200u16, 200, 500])),
     ];
     if exhaustive_scripts {
         // one explicit per-attempt script of length 1..3 over the 8 behaviour classes
